@@ -12,6 +12,30 @@ checks = [c["property_id"] for c in json.load(open(os.path.join(V, "MANIFEST.jso
 only = os.environ.get("CHECKS")
 if only:
     checks = only.split(",")
+# SMART=1: per patch, run the whole-program inventory checks plus the checks whose property names one of the
+# touched files (or a file of the same directory) among its anchors; a final full run uses SMART unset
+SMART = os.environ.get("SMART")
+GLOBAL = {"C01", "C05", "C07", "C08", "C13", "C21"}
+anchors = {}
+for l in open(os.path.join(V, "properties.jsonl")):
+    d = json.loads(l)
+    anchors[d["id"]] = set(d.get("anchors", {}).get("files", []))
+
+
+def checks_for(patch):
+    if not SMART:
+        return checks
+    touched = set()
+    for line in open(patch):
+        if line.startswith("+++ b/") or line.startswith("--- a/"):
+            touched.add(line[6:].strip())
+    dirs = {os.path.dirname(t) for t in touched}
+    out = []
+    for c in checks:
+        a = anchors.get(c, set())
+        if c in GLOBAL or (a & touched) or any(os.path.dirname(x) in dirs for x in a):
+            out.append(c)
+    return out
 wt = tempfile.mkdtemp(prefix="verif-benign-")
 ev = tempfile.mkdtemp(prefix="verif-benign-ev-")
 os.rmdir(wt)
@@ -28,7 +52,8 @@ try:
             continue
         env = dict(os.environ, VERIF_EVIDENCE_DIR=ev)
         row = {"alarms": {}, "broken": {}}
-        for c in checks:
+        row["checks"] = checks_for(patch)
+        for c in row["checks"]:
             p = subprocess.run([os.path.join(V, "check"), c, "--repo", wt], capture_output=True, text=True, env=env)
             if p.returncode == 1:
                 row["alarms"][c] = [l.strip() for l in p.stdout.splitlines() if l.strip().startswith("rule=")][:6]
